@@ -137,6 +137,18 @@ impl vstd::std_specs::cmp::PartialOrdSpecImpl for Decimal {
         if self.atomics < other.atomics { Some(core::cmp::Ordering::Less) } else if self.atomics == other.atomics { Some(core::cmp::Ordering::Equal) } else { Some(core::cmp::Ordering::Greater) }
     }
 }
+impl Eq for Decimal {}
+impl vstd::std_specs::cmp::OrdSpecImpl for Decimal {
+    open spec fn obeys_cmp_spec() -> bool { true }
+    open spec fn cmp_spec(&self, other: &Decimal) -> core::cmp::Ordering {
+        if self.atomics < other.atomics { core::cmp::Ordering::Less } else if self.atomics == other.atomics { core::cmp::Ordering::Equal } else { core::cmp::Ordering::Greater }
+    }
+}
+impl Ord for Decimal {
+    fn cmp(&self, o: &Decimal) -> (r: core::cmp::Ordering) {
+        if self.atomics < o.atomics { core::cmp::Ordering::Less } else if self.atomics == o.atomics { core::cmp::Ordering::Equal } else { core::cmp::Ordering::Greater }
+    }
+}
 impl PartialOrd for Decimal {
     fn partial_cmp(&self, o: &Decimal) -> (r: Option<core::cmp::Ordering>) {
         if self.atomics < o.atomics { Some(core::cmp::Ordering::Less) } else if self.atomics == o.atomics { Some(core::cmp::Ordering::Equal) } else { Some(core::cmp::Ordering::Greater) }
